@@ -342,6 +342,23 @@ func (g *c14Gen) law() (jast.Node, O, string, interface{}) {
 		return call("sort", call("keys", ov)), doc, "law:keys-sorted", want
 	case 3:
 		// $each visits every member exactly once
+		if len(keys) >= 2 && r.Intn(2) == 0 {
+			// ... and reports what the callback yields, nothing where it yields
+			// nothing: the callback yields the name of the members picked here
+			var pick A
+			var names []jast.Node
+			for _, k := range keys {
+				if r.Bool() {
+					pick = append(pick, k)
+					names = append(names, &jast.Str{V: k.(string)})
+				}
+			}
+			f := &jast.Lambda{Params: []string{"v", "k"}, Body: &jast.Cond{If: &jast.Bin{Op: "in", L: &jast.Var{Name: "k"}, R: &jast.Array{Items: names}}, Then: &jast.Var{Name: "k"}}}
+			if len(pick) == 0 {
+				return call("count", call("each", ov, f)), doc, "law:each-yields-for-no-member", 0.0
+			}
+			return call("sort", call("each", ov, f)), doc, "law:each-yields-for-some-members", interface{}(pick)
+		}
 		want := interface{}(keys)
 		if len(keys) == 0 {
 			return call("count", call("each", ov, &jast.Lambda{Params: []string{"v", "k"}, Body: &jast.Var{Name: "k"}})), doc, "law:each-empty", 0.0
